@@ -359,3 +359,47 @@ Theorem C19_redirect_related_refuted :
   k1_witness "https://cdn.repo.example/_landed/a-1.0.0.tgz" = true.
 Proof. exact redirect_related_refuted. Qed.
 Print Assumptions C19_redirect_related_refuted.
+
+(* Several remote dependencies in one chart (Manager.downloadAll as a fold, the option list of
+   each iteration built afresh): the requests made for dependency i - and the credentials on
+   them - are manager_dep of ITS repository, name and version alone; they do not depend on
+   the dependencies before it (all downloaded) or after it. *)
+Theorem C19_dependency_credentials_independent :
+  forall (parse : string -> option url) (url_equal : string -> string -> bool)
+         (lookup : entry -> string -> string -> option string) (index_url : string -> option string)
+         (find_in : string -> string -> string -> option string)
+         (dep_url : entry -> string -> string -> string -> option string)
+         pre dr n v ok post repos wp,
+    forallb dep_ok pre = true ->
+    download_all parse url_equal lookup index_url find_in dep_url (pre ++ (dr, n, v, ok) :: post)%list repos wp =
+    (download_all parse url_equal lookup index_url find_in dep_url pre repos wp
+     ++ manager_dep parse url_equal lookup index_url find_in dep_url dr n v repos wp ok
+     ++ (if ok then download_all parse url_equal lookup index_url find_in dep_url post repos wp else []))%list.
+Proof. exact download_all_independent. Qed.
+Print Assumptions C19_dependency_credentials_independent.
+
+(* ... so with any number of dependencies in any order every request that carries a pair
+   carries a repository entry's own pair within that entry's scope *)
+Theorem C19_dependencies_scope :
+  forall (parse : string -> option url) (url_equal : string -> string -> bool)
+         (lookup : entry -> string -> string -> option string) (index_url : string -> option string)
+         (find_in : string -> string -> string -> option string)
+         (dep_url : entry -> string -> string -> string -> option string),
+    (forall s u, parse s = Some u -> so parse s (u_str u)) ->
+    (forall s u, parse s = Some u -> nonempty (u_path u) = true -> so parse s (u_str u ++ ".prov")) ->
+    (forall cr d n v cu u, dep_url cr d n v = Some cu -> parse cu = Some u -> abs3 u = true) ->
+    (forall a b ua, url_equal a b = true -> parse a = Some ua -> so parse a b) ->
+    forall deps repos wp href cr,
+      In (href, GReq (Some cr)) (download_all parse url_equal lookup index_url find_in dep_url deps repos wp) ->
+      repo_cred_ok parse repos cr href.
+Proof. exact download_all_scope. Qed.
+Print Assumptions C19_dependencies_scope.
+
+(* the structural fact on the source side: the option list handed to DownloadTo is
+   constructed on the way to the call (in downloadAll: inside the loop iteration), not
+   appended to a slice that outlives it *)
+Theorem C19_options_built_fresh_source :
+  fresh_list manager_download_all_options_src = true /\
+  fresh_list locate_chart_options_src = true /\ fresh_list pull_run_options_src = true.
+Proof. exact options_fresh_source. Qed.
+Print Assumptions C19_options_built_fresh_source.
